@@ -86,7 +86,27 @@ func (w *World) elemAt(t interp.PtrV, idx []sym.Poly) sym.Expr {
 }
 
 func (w *World) result(name string, dims []sym.Poly, elem sym.Expr, rng Ival) interp.PtrV {
-	return w.NewTensor(w.fresh(name), dims, elem, rng, nil)
+	// the context the real constructors would attach, as far as its flags go (no back edges in spec mode)
+	anyDirty, anyTracked := false, false
+	for _, o := range w.curOperands {
+		g, ok := w.GctxOf(o)
+		if !ok {
+			continue
+		}
+		if b, ok := interp.Load(g.C.Fields[w.A.GDirty]).(interp.BoolV); ok && b.Known && b.Val {
+			anyDirty = true
+		}
+		if b, ok := interp.Load(g.C.Fields[w.A.GTracked]).(interp.BoolV); ok && b.Known && b.Val {
+			anyTracked = true
+		}
+	}
+	cmp := map[string]bool{"Eq": true, "Ne": true, "Gt": true, "Ge": true, "Lt": true, "Le": true}[name]
+	tracked := anyTracked && !anyDirty && !cmp
+	g := w.NewGradContext(tracked, anyDirty && !cmp, nil)
+	if tracked {
+		w.SpecTracked++
+	}
+	return w.NewTensor(w.fresh(name), dims, elem, rng, g)
 }
 
 // bcIdx maps the index of a source (dims s) into a result of shape S by right alignment; unit source axes read index 0.
@@ -240,6 +260,12 @@ func (w *World) Method(name string, recv interp.PtrV, args []interp.Value) (inte
 	r := len(d)
 	ti := w.InfoOf(recv)
 	id := IdentIdx(r)
+	w.curOperands = []interp.PtrV{recv}
+	for _, a := range args {
+		if t, ok := w.AsTensor(a); ok {
+			w.curOperands = append(w.curOperands, t)
+		}
+	}
 	switch name {
 	case "NElems":
 		return interp.IntV{P: prod(d)}, true
@@ -720,7 +746,7 @@ func (w *World) reshapeElem(t interp.PtrV, S []sym.Poly) sym.Expr {
 	same := len(nzFrom) == len(nzTo)
 	if same {
 		for i := range nzFrom {
-			if !d[nzFrom[i]].Equal(S[nzTo[i]]) {
+			if !d[nzFrom[i]].Equal(S[nzTo[i]]) && !w.M.Entailed(eq(d[nzFrom[i]], S[nzTo[i]])) {
 				same = false
 				break
 			}
